@@ -25,7 +25,8 @@
 
   Control flow is kept code-shaped.  This is the code after the fix: commits 919a36b (the loop variable
   no longer doubles as the return value, DESIGN 6 items 10/18) and 576f1fd (a final-flagged state that
-  has just been entered fires also when its active children are not all final, item 11).  The root call
+  has just been entered fires also when its active children are not all final, item 11) and 56c10cf
+  (`_just_entered` compares the scoped path as well as the state object).  The root call
   can still reach `machine.scoped_enter` syntactically; `C18_nested_exact` proves it never does.
   Import-free: the driver links this file.
 -/
@@ -51,10 +52,6 @@ structure Defs where
   onFinal : Nat → List Nat
   /-- `HierarchicalMachine.on_final` -/
   machineOnFinal : List Nat
-  /-- which `NestedState` OBJECT the state with this number (= this path in the machine) is: two paths are
-  the same object when one `HierarchicalMachine` instance is embedded as `children` of several states
-  (`_add_machine_states` adds the child machine's state objects themselves) -/
-  obj : Nat → Nat := id
 
 /-- whose `on_final` list a collected partial runs -/
 inductive Owner
@@ -62,10 +59,12 @@ inductive Owner
   | machine
   deriving DecidableEq, Repr, Inhabited
 
-/-- `any(scoped.scoped_enter == part.func for part in enter_partials)` for the state `s` in scope:
-bound methods are equal iff they are the same method of the same state OBJECT — the scope prefix the
-partial carries (`part.args[1]`, the path of the entered state's parents) is not compared -/
-def entered (D : Defs) (E : List Nat) (s : Nat) : Bool := E.any (fun e => D.obj e == D.obj s)
+/-- `_just_entered` (fix 56c10cf): `any(scoped.scoped_enter == part.func and part.args[1] == parents …)` for
+the state `s` in scope — the partial targets this state OBJECT and carries this state's parents as its scope
+prefix; object + parents = the state's path, and a state is a path here, so this is membership in `E`.
+(Before the fix only the object was compared: one child machine embedded under several states made a state
+at another path count as entered — finding F-C18-shared-state-object, regression cases in the corpus.) -/
+def entered (E : List Nat) (s : Nat) : Bool := E.contains s
 
 /-- `(on_final_cbs, all_children_final)` while the `for` loop runs -/
 abbrev LoopSt := List Owner × Bool
@@ -83,14 +82,14 @@ def finalCheck (D : Defs) (E : List Nat) : Tree → List Owner × Bool
       if D.final s then
         -- if any(scoped.scoped_enter == part.func …): on_final_cbs.append(partial(… scoped.on_final …))
         -- is_final = True
-        (if entered D E s then [.state s] else [], true)
+        (if entered E s then [.state s] else [], true)
       else ([], false)
     else if r.2 then
       -- if all_children_final:
       --     if on_final_cbs or any(scoped.scoped_enter == part.func …): on_final_cbs.append(…)
       --     is_final = True
-      (if !r.1.isEmpty || entered D E s then r.1 ++ [.state s] else r.1, true)
-    else if D.final s && entered D E s then
+      (if !r.1.isEmpty || entered E s then r.1 ++ [.state s] else r.1, true)
+    else if D.final s && entered E s then
       -- elif getattr(scoped, 'final', False) and any(scoped.scoped_enter == part.func …):
       --     on_final_cbs.append(…)            (is_final stays False)
       (r.1 ++ [.state s], false)
